@@ -185,6 +185,9 @@ func (c *StructCodec) Read(data []byte, ptr unsafe.Pointer, wt plenccore.WireTyp
 	var offset int
 	for offset < l {
 		wt, index, n := plenccore.ReadTag(data[offset:])
+		if n <= 0 {
+			return 0, fmt.Errorf("invalid field tag in %s", c.rtype.Name())
+		}
 		offset += n
 
 		if index >= len(c.fieldsByIndex) || c.fieldsByIndex[index].codec == nil {
@@ -206,10 +209,10 @@ func (c *StructCodec) Read(data []byte, ptr unsafe.Pointer, wt plenccore.WireTyp
 				return 0, fmt.Errorf("varuint overflow reading field %d of %s", index, c.rtype.Name())
 			}
 			offset += n
-			fl = int(v) + offset
-			if fl > l {
-				return 0, fmt.Errorf("length %d of field %d of %s exceeds data length", fl, index, c.rtype.Name())
+			if v > uint64(l-offset) {
+				return 0, fmt.Errorf("length %d of field %d of %s exceeds data length", v, index, c.rtype.Name())
 			}
+			fl = int(v) + offset
 		}
 
 		d := c.fieldsByIndex[index]
